@@ -13,6 +13,7 @@ source text of errors() (no pattern extraction): whatever way the checks are wri
   cross-cycle    two sibling branches that refer to each other (B lists C's id, C lists B's id), and a ring of three: rejected
   shadowed-dup   a node that lists a child twice, while another branch (earlier in the traversal) refers to that node's id
                  as a plain variable with the same bounds:                 rejected
+  root-dup       a sub-proposition two levels down that carries the ROOT's id with another definition:  rejected
   fixed-cycle    a cycle closed through a reference with fixed bounds (1,1) equal to the own bounds of the node: rejected
   tree           pairwise distinct ids, any bounds / thresholds / signs:   accepted
   shared         one sub-proposition object under two parents:             accepted
@@ -55,7 +56,7 @@ class ErrorsShapeH(Harness):
     def cases(self):
         out = [{"shape": "dup-leaf"}, {"shape": "tree"}, {"shape": "shared"}, {"shape": "same-child"}, {"shape": "cycle"},
                {"shape": "dup-children"}, {"shape": "dup-own-bounds"}, {"shape": "cross-cycle"}, {"shape": "ring3"},
-               {"shape": "fixed-cycle"}, {"shape": "shadowed-dup"}]
+               {"shape": "fixed-cycle"}, {"shape": "shadowed-dup"}, {"shape": "root-dup"}]
         for s1 in (1, -1):
             for s2 in (1, -1):
                 out.append({"shape": "dup-compound", "s1": s1, "s2": s2})
@@ -118,6 +119,11 @@ class ErrorsShapeH(Harness):
             C, _ = compound(c, repo, "C", [L("N", "rn")[0], L("y", "y")[0]], 1, "C")
             T, _ = compound(c, repo, "T", [C, N], 1, "T")
             st.update(top=T, accept=False, ids=None, n_occ=7)
+        elif sh == "root-dup":
+            inner, _ = compound(c, repo, "T", [L("y", "y")[0]], 1, "Ti")
+            B, _ = compound(c, repo, "B", [inner, L("w", "w")[0]], 1, "B")
+            T, _ = compound(c, repo, "T", [B, L("x", "x")[0]], 1, "T")
+            st.update(top=T, accept=False, ids=None, n_occ=6)
         elif sh == "fixed-cycle":
             back = mk_variable(repo, "T", 1, 1)
             C, _ = compound(c, repo, "C", [back, L("b", "b")[0]], 1, "C")
@@ -200,6 +206,8 @@ class ErrorsShapeH(Harness):
                         C("R", [L("Q", "rq"), L("z", "z")], -1, "R")], 1, "T"); acc = False
         elif sh == "shadowed-dup":
             T = C("T", [C("C", [L("N", "rn"), L("y", "y")], 1, "C"), C("N", [L("x", "x"), L("x", "x")], 1, "N")], 1, "T"); acc = False
+        elif sh == "root-dup":
+            T = C("T", [C("B", [C("T", [L("y", "y")], 1, "Ti"), L("w", "w")], 1, "B"), L("x", "x")], 1, "T"); acc = False
         elif sh == "fixed-cycle":
             T = C("T", [C("C", [puan.variable("T", (1, 1)), L("b", "b")], 1, "C")], 1, "T", own=(1, 1)); acc = False
         else:
